@@ -3,6 +3,7 @@
    else (pion/rtp, pion/rtcp parsers, logging, closures) is covered only by the fuzz harness,
    which is testing, not proof. *)
 From IV Require Import Base.Word Model.NoCrash Proofs.NoCrashProofs.
+From IV Require Model.PriorityQueue Model.JitterBuffer Proofs.JitterBufferProofs.
 
 (* rtpfb TWCC conversion: no chunk list / delta count can make it index out of range *)
 Theorem C02_convert_twcc_no_panic : forall cs ndeltas, convert_twcc true cs ndeltas <> Panic.
@@ -40,3 +41,11 @@ Print Assumptions C02_packetdump_slice_in_range.
 Theorem C02_packetdump_unfixed_refuted : pd_slice 16 12 1500 = Panic.
 Proof. exact pd_slice_unfixed_panics. Qed.
 Print Assumptions C02_packetdump_unfixed_refuted.
+
+(* jitter-buffer priority queue (pointer-level model of C18): no operation of any history
+   dereferences nil or walks for ever - the cycle a duplicate of the queue head used to create
+   (finding F18) is the counterexample on the pre-fix code, see C18_unfixed_push_cycle_refuted *)
+Theorem C02_jitter_queue_no_panic_no_diverge : forall min ops,
+  Forall (fun re => fst re <> JitterBuffer.RPanic /\ fst re <> JitterBuffer.RDiverge) (JitterBuffer.cjb_run min ops).
+Proof. exact JitterBufferProofs.cjb_run_good. Qed.
+Print Assumptions C02_jitter_queue_no_panic_no_diverge.
